@@ -1,0 +1,80 @@
+//go:build verif
+
+package keylock
+
+// Observers for the /verif simulation checks. They only read; with the verif tag off this file does
+// not exist.
+
+// VerifEntries reports how many per-key entries an interface{}-keyed locker keeps (-1: unknown type).
+func VerifEntries(l Locker) int {
+	switch x := l.(type) {
+	case *KeyLocker:
+		return len(x.lockMap)
+	case *KeyLockerGrp:
+		var n = 0
+		for _, s := range x.ls {
+			n += len(s.lockMap)
+		}
+		return n
+	}
+	return -1
+}
+
+// VerifKeyCounts reports the registered reader/writer counts of one key.
+func VerifKeyCounts(l Locker, key interface{}) (readers int, writers int, present bool) {
+	var s *KeyLocker
+	switch x := l.(type) {
+	case *KeyLocker:
+		s = x
+	case *KeyLockerGrp:
+		s = x.calculateKey(key)
+	default:
+		return 0, 0, false
+	}
+	var w, ok = s.lockMap[key]
+	if !ok {
+		return 0, 0, false
+	}
+	return w.readCount, w.writeCount, true
+}
+
+// VerifTEntries is VerifEntries for the generic lockers.
+func VerifTEntries[T comparable](l TLocker[T]) int {
+	switch x := l.(type) {
+	case *TKeyLocker[T]:
+		return len(x.lockMap)
+	case *TKeyLockerGrp[T]:
+		var n = 0
+		for _, s := range x.ls {
+			n += len(s.lockMap)
+		}
+		return n
+	}
+	return -1
+}
+
+// VerifTKeyCounts is VerifKeyCounts for the generic lockers.
+func VerifTKeyCounts[T comparable](l TLocker[T], key T) (readers int, writers int, present bool) {
+	var s *TKeyLocker[T]
+	switch x := l.(type) {
+	case *TKeyLocker[T]:
+		s = x
+	case *TKeyLockerGrp[T]:
+		s = x.calculateKey(key)
+	default:
+		return 0, 0, false
+	}
+	var w, ok = s.lockMap[key]
+	if !ok {
+		return 0, 0, false
+	}
+	return w.readCount, w.writeCount, true
+}
+
+// VerifTShardOf reports the shard a key of a generic group locker is routed to (0 otherwise).
+func VerifTShardOf[T comparable](l TLocker[T], key T) int {
+	if x, ok := l.(*TKeyLockerGrp[T]); ok {
+		return x.calKeyFn(key)
+	}
+	return 0
+}
